@@ -79,6 +79,9 @@ class FlowMixin:
             g.assume(dg >= 0)
             g.step_base = sg - dg
             g.step_snap = None
+            if g.tick_time is not None:
+                g.tick_time = fresh("tick", z3.RealSort())
+                g.step_time = fresh("stept", z3.RealSort())
             self.havoc_locals(g, assigned_names(stmt.body) | (assigned_names([stmt.target]) if for_ctx else set()), back[0][0])
             if may_suspend(stmt.body):
                 t_before = self.loop_field(g, "time")
@@ -691,6 +694,7 @@ class FlowMixin:
         self.at_suspension(st)
         pre = st.snap()
         old_time = self.loop_field(st, "time")
+        st.tick_time = old_time
         n = fresh("bodysusp", z3.IntVal(0).sort())
         st.assume(n >= 0)
         st.susp = st.susp + n
@@ -703,6 +707,7 @@ class FlowMixin:
             self.assume_kernel_facts(st)
         st.step_base = st.susp
         st.step_snap = st.last_susp
+        st.step_time = self.loop_field(st, "time")
         st.step_no += 1
         outs = []
         s1 = st.copy()
